@@ -174,8 +174,20 @@ import zlib as _zlib
 _SET_SALT = [0]
 
 
+_WD = ["", ""]
+
+
+def set_workdir(wd):
+    """The run's scratch directory has a random name: strings that embed it (file locations, menu ids) are ordered by
+    their text with the directory replaced, so that a run replays in another directory exactly as it ran."""
+    _WD[0] = wd
+    _WD[1] = wd.strip("/").replace("/", "-")
+
+
 def _okey(x):
     if isinstance(x, str):
+        if _WD[0] and (_WD[0] in x or _WD[1] in x):
+            x = x.replace(_WD[0], "<WD>").replace(_WD[1], "<WD>")
         return _zlib.crc32(x.encode("utf-8", "surrogatepass"))
     if isinstance(x, tuple):
         h = 17
